@@ -6,6 +6,7 @@ script is re-run. (K) the extracted model Gentest/Script.v, given the ignore-sub
 predicts the outcome of every generated test for every behaviour; (S) the failing tests must be exactly the test of
 the changed aspect (unless the changed reference line carries a generated ignore-substring - the tool's design)."""
 import os
+import re
 import shutil
 
 import lib
@@ -127,11 +128,58 @@ def special_case(args):
     return kind, 'generated', None
 
 
+def two_scripts_case(args):
+    """two commands that each write a file under $TMPDIR, a generated script for each, both scripts in ONE test process
+    (python -m unittest a b imports both before it runs either): nothing changed -> every test passes; one command
+    changed -> only its own file test fails.  Returns (what, problem or None)."""
+    i, seed, base = args
+    import random
+    import subprocess
+    rng = random.Random(seed)
+    d = os.path.join(base, 'two%d' % i)
+    shutil.rmtree(d, ignore_errors=True)
+    os.makedirs(os.path.join(d, 'outdir'))
+
+    def write(name, value):
+        with open(os.path.join(d, '%s.sh' % name), 'w') as f:
+            f.write('#!/bin/sh\necho %s ran\nprintf \'value %s\\n\' > "$TMPDIR"/%s_out.txt\nexit 0\n' % (name, value, name))
+    names = ['alpha', 'beta'] + (['gamma'] if rng.random() < 0.4 else [])
+    for nm in names:
+        write(nm, 1)
+        rc, out = G.run_gentest(d, 'test_%s.py' % nm, ['-n', rng.choice(['1', '2'])], [], 'sh %s.sh' % nm)
+        if rc != 0 or not os.path.exists(os.path.join(d, 'test_%s.py' % nm)):
+            return 'two-scripts', 'declined', None
+
+    def run_all():
+        p = subprocess.run([G.PY, '-m', 'unittest', '-v'] + ['test_%s' % nm for nm in names], cwd=d, env=G.env_for(d),
+                           stdout=subprocess.PIPE, stderr=subprocess.STDOUT, text=True, errors='replace', timeout=300)
+        bad = sorted(set(m.group(2) + '.' + m.group(1) for m in re.finditer(r'^(?:FAIL|ERROR): (\w+) \((\w+)\.', p.stdout, flags=re.M)))
+        ran = re.search(r'^Ran (\d+) tests?', p.stdout, flags=re.M)
+        return p.returncode, bad, int(ran.group(1)) if ran else 0, p.stdout
+    rc1, bad1, n1, out1 = run_all()
+    if rc1 != 0 or bad1 or n1 == 0:
+        return 'two-scripts', 'generated', ('nothing changed, but with the %d generated scripts run in one process %r fail (%d tests ran): %s'
+                                            % (len(names), bad1, n1, out1[-300:]))
+    changed = rng.choice(names)
+    write(changed, 2)
+    rc2, bad2, n2, out2 = run_all()
+    want = 'test_%s.test_%s_out_txt' % (changed, changed)
+    if bad2 != [want]:
+        return 'two-scripts', 'generated', ('the command of %s now writes another value; in one process with the other scripts the failing '
+                                            'tests are %r, expected just %r' % (changed, bad2, want))
+    return 'two-scripts', 'generated', None
+
+
 def run(ctx):
     base = os.path.join(lib.WORK, 'c12')
     shutil.rmtree(base, ignore_errors=True)
     os.makedirs(base)
     for kind, how, problem in G.pmap(special_case, [(i, ctx.rng.randrange(1 << 30), base) for i in range(6 if ctx.quick else 60)]):
+        ctx.count(('special', kind, how, repr(problem)), True)
+        ctx.bump('special.%s.%s' % (kind, how))
+        if problem:
+            ctx.fail({'special': kind}, problem)
+    for kind, how, problem in G.pmap(two_scripts_case, [(i, ctx.rng.randrange(1 << 30), base) for i in range(4 if ctx.quick else 40)]):
         ctx.count(('special', kind, how, repr(problem)), True)
         ctx.bump('special.%s.%s' % (kind, how))
         if problem:
